@@ -481,3 +481,470 @@ pub fn c01_histories(quick: bool) -> Vec<History> {
     out.sort_by_key(|h| h.steps.len());
     out
 }
+
+// ------------------------------------------------------------------------------------------ C09
+
+/// value `i` of the multimap value domain of type `t`; `len` only matters for Bytes/Str
+pub fn mval(t: T, i: u64, len: usize) -> Val {
+    match t {
+        T::U64 => Val::U(i),
+        T::Bytes => {
+            let mut v = format!("{i:08}").into_bytes();
+            if len > 8 {
+                v.extend_from_slice(&payload(i, len - 8));
+            } else {
+                v.truncate(len);
+            }
+            Val::B(v)
+        }
+        T::Str => {
+            let mut s = format!("{i:08}");
+            if len > 8 {
+                s.push_str(&spayload(i, len - 8));
+            }
+            Val::S(s)
+        }
+    }
+}
+
+pub struct MSeedSpec {
+    pub name: String,
+    /// number of values under the middle key (key 20); values are 100,110,..
+    pub n_mid: u64,
+    pub vlen: usize,
+    pub dirty: bool,
+}
+
+pub fn mm_seed(cfg: Cfg, spec: Spec, s: &MSeedSpec) -> Seed {
+    let open = Op::Open { slot: 0, name: "m".into(), spec };
+    let mut fill = vec![];
+    fill.push(Op::MInsert { slot: 0, k: key_of(spec.k, 10), v: mval(spec.v, 100, s.vlen) });
+    for i in 0..s.n_mid {
+        fill.push(Op::MInsert { slot: 0, k: key_of(spec.k, 20), v: mval(spec.v, 100 + i * 10, s.vlen) });
+    }
+    fill.push(Op::MInsert { slot: 0, k: key_of(spec.k, 30), v: mval(spec.v, 100, s.vlen) });
+    fill.push(Op::MInsert { slot: 0, k: key_of(spec.k, 30), v: mval(spec.v, 110, s.vlen) });
+    let mut pre = vec![Op::Begin, open.clone()];
+    let setup = if s.dirty {
+        pre.extend(fill);
+        vec![txn(CommitMode::OnePhase, vec![open])]
+    } else {
+        let mut b = vec![open];
+        b.extend(fill);
+        vec![txn(CommitMode::OnePhase, b)]
+    };
+    Seed { name: format!("{}{}", s.name, if s.dirty { "-dirty" } else { "" }), cfg, setup, pre }
+}
+
+pub fn mm_alphabet(spec: Spec, n_mid: u64, vlen: usize, full: bool) -> Vec<Op> {
+    let s = 0u8;
+    let k10 = key_of(spec.k, 10);
+    let k20 = key_of(spec.k, 20);
+    let k30 = key_of(spec.k, 30);
+    let kabs = key_of(spec.k, 25);
+    let v = |i: u64| mval(spec.v, i, vlen);
+    let last = 100 + n_mid.saturating_sub(1) * 10;
+    let reopen = |pre: Vec<Op>| Op::Seq([pre, vec![Op::Begin, Op::Open { slot: 0, name: "m".into(), spec }]].concat());
+    let mut a = vec![
+        Op::MInsert { slot: s, k: k20.clone(), v: v(105) },
+        Op::MRemove { slot: s, k: k20.clone(), v: v(100) },
+        Op::MGet { slot: s, k: k20.clone(), mode: IterMode::Alt },
+        Op::MInsert { slot: s, k: k20.clone(), v: v(100) },
+        Op::MInsert { slot: s, k: k20.clone(), v: v(last + 5) },
+        Op::MInsert { slot: s, k: k20.clone(), v: v(95) },
+        Op::MInsert { slot: s, k: kabs.clone(), v: v(100) },
+        Op::MRemove { slot: s, k: k20.clone(), v: v(last) },
+        Op::MRemove { slot: s, k: k20.clone(), v: v(101) },
+        Op::MRemove { slot: s, k: k10.clone(), v: v(100) },
+        Op::MRemoveAll { slot: s, k: k20.clone(), consume: Consume::All },
+        Op::MRemoveAll { slot: s, k: k20.clone(), consume: Consume::Nothing },
+        Op::MRange { slot: s, lo: B::Un, hi: B::Un, mode: IterMode::Fwd },
+        Op::Len { slot: s },
+        reopen(vec![Op::Commit]),
+        reopen(vec![Op::Abort]),
+        reopen(vec![Op::Commit, Op::Reopen]),
+    ];
+    if full {
+        a.extend(vec![
+            Op::MGet { slot: s, k: k20.clone(), mode: IterMode::Bwd },
+            Op::MGet { slot: s, k: kabs.clone(), mode: IterMode::Fwd },
+            Op::MGet { slot: s, k: k30.clone(), mode: IterMode::Fwd },
+            Op::MInsert { slot: s, k: k10.clone(), v: v(90) },
+            Op::MInsert { slot: s, k: k30.clone(), v: v(105) },
+            Op::MRemove { slot: s, k: k30.clone(), v: v(110) },
+            Op::MRemove { slot: s, k: kabs.clone(), v: v(100) },
+            Op::MRemoveAll { slot: s, k: k20.clone(), consume: Consume::First },
+            Op::MRemoveAll { slot: s, k: k20.clone(), consume: Consume::Alt },
+            Op::MRemoveAll { slot: s, k: kabs.clone(), consume: Consume::All },
+            Op::MRemoveAll { slot: s, k: k10.clone(), consume: Consume::Half },
+            Op::MRange { slot: s, lo: B::In(k10.clone()), hi: B::Ex(k30.clone()), mode: IterMode::Bwd },
+            Op::MRange { slot: s, lo: B::Ex(k10.clone()), hi: B::Un, mode: IterMode::Alt },
+            Op::MRange { slot: s, lo: B::In(kabs.clone()), hi: B::In(kabs.clone()), mode: IterMode::Fwd },
+            reopen(vec![Op::DropTxn]),
+        ]);
+    }
+    a
+}
+
+pub fn c09_profiles(quick: bool) -> Vec<(Profile, u64)> {
+    let mut out = vec![];
+    // (spec, value length, mid counts around the inline/subtree threshold, core depth, full depth)
+    let tables: Vec<(Spec, usize, Vec<u64>, usize, usize)> = if quick {
+        vec![
+            (mm(T::U64, T::U64), 8, vec![1, 30, 31, 32, 600], 3, 2),
+            (mm(T::Bytes, T::Bytes), 60, vec![2, 3, 4, 40], 2, 1),
+            (mm(T::Bytes, T::Bytes), 300, vec![1, 2], 2, 1),
+            (mm(T::Str, T::U64), 8, vec![31, 32], 2, 1),
+        ]
+    } else {
+        vec![
+            (mm(T::U64, T::U64), 8, vec![1, 29, 30, 31, 32, 33, 600], 4, 3),
+            (mm(T::Bytes, T::Bytes), 60, vec![1, 2, 3, 4, 5, 40], 3, 2),
+            (mm(T::Bytes, T::Bytes), 130, vec![1, 2, 3], 3, 2),
+            (mm(T::Bytes, T::Bytes), 300, vec![1, 2], 3, 2),
+            (mm(T::Bytes, T::Bytes), 0, vec![1], 2, 2),
+            (mm(T::Str, T::U64), 8, vec![30, 31, 32], 3, 2),
+            (mm(T::U64, T::Str), 40, vec![4, 5, 6, 7], 3, 2),
+        ]
+    };
+    let cfgs: Vec<(Cfg, usize)> = if quick { vec![(CFG0, 0)] } else { vec![(CFG0, 0), (CFG_CACHE, 1), (CFG_4K, 1)] };
+    for (spec, vlen, mids, dcore, dfull) in tables {
+        for (cfg, red) in &cfgs {
+            for (full, depth) in [(false, dcore.saturating_sub(*red)), (true, dfull.saturating_sub(*red))] {
+                if depth == 0 {
+                    continue;
+                }
+                let mut specs = vec![];
+                for n in &mids {
+                    specs.push(MSeedSpec { name: format!("mid{n}"), n_mid: *n, vlen, dirty: false });
+                }
+                // one dirty variant at the threshold
+                specs.push(MSeedSpec { name: format!("mid{}", mids[mids.len() / 2]), n_mid: mids[mids.len() / 2], vlen, dirty: true });
+                let seeds: Vec<Seed> = specs.iter().map(|s| mm_seed(*cfg, spec, s)).collect();
+                let ns: std::collections::BTreeMap<String, u64> =
+                    specs.iter().map(|s| (format!("{}{}", s.name, if s.dirty { "-dirty" } else { "" }), s.n_mid)).collect();
+                let alphabet = move |it: &Interp, _d: usize, b: &Built| -> Vec<Op> {
+                    let n = ns.get(&b.seed.name).copied().unwrap_or(1);
+                    enabled_table_ops(it, &mm_alphabet(spec, n, vlen, full))
+                };
+                out.push((
+                    Profile {
+                        name: format!(
+                            "multimap<{:?},{:?}>/v{}/{}/p{}c{}/d{}",
+                            spec.k,
+                            spec.v,
+                            vlen,
+                            if full { "full" } else { "core" },
+                            cfg.page_size,
+                            cfg.cache,
+                            depth
+                        ),
+                        seeds,
+                        depth,
+                        alphabet: Box::new(alphabet),
+                        finish: FINISH_FULL,
+                        accounting: true,
+                        extra: None,
+                    },
+                    u64::MAX,
+                ));
+            }
+        }
+    }
+    out
+}
+
+// ------------------------------------------------------------------------------------------ C17
+
+/// after the final commit: empty durable commits until nothing is pending-free (at most `max`),
+/// then every allocated page must be reachable from the two roots
+pub fn drain_and_check(it: &mut Interp, max: usize) -> Result<(), String> {
+    if it.in_txn() || it.any_reader() || it.any_esave() || !it.committed.psave.is_empty() {
+        return Ok(());
+    }
+    for i in 0..=max {
+        let db = it.db.as_ref().ok_or("harness: no db")?;
+        let s = crate::account::check(db)?;
+        if s.data_freed + s.system_freed + s.unpersisted_freed == 0 {
+            return Ok(());
+        }
+        if i == max {
+            return Err(format!(
+                "pages are still pending-free after {max} empty durable commits with no reader and no savepoint alive: {s:?}"
+            ));
+        }
+        it.step(&txn(CommitMode::OnePhase, vec![]))?;
+    }
+    Ok(())
+}
+
+const CAT_SPECS: [Spec; 4] = [tbl(T::U64, T::U64), tbl(T::Str, T::U64), tbl(T::U64, T::Str), mm(T::U64, T::U64)];
+
+fn cat_kv(spec: Spec, i: u64) -> (Val, Val) {
+    (key_of(spec.k, i), val_of(spec.v, i, 12))
+}
+
+pub fn c17_alphabet(it: &Interp) -> Vec<Op> {
+    if !it.in_txn() {
+        return vec![];
+    }
+    let begin = |pre: Vec<Op>| Op::Seq([pre, vec![Op::Begin]].concat());
+    if it.poisoned() {
+        return vec![begin(vec![Op::Commit]), begin(vec![Op::Abort])];
+    }
+    let mut a = vec![];
+    let free_slot = (0..2u8).find(|s| !it.slot_open(*s));
+    if let Some(s) = free_slot {
+        for name in ["a", "b"] {
+            for spec in CAT_SPECS {
+                a.push(Op::Open { slot: s, name: name.into(), spec });
+            }
+        }
+    }
+    for s in 0..2u8 {
+        if let Some(spec) = it.slot_spec(s) {
+            let (k, v) = cat_kv(spec, 7);
+            match spec.kind {
+                Kind::Table => {
+                    a.push(Op::Insert { slot: s, k: k.clone(), v });
+                    a.push(Op::Remove { slot: s, k });
+                }
+                Kind::Multimap => {
+                    a.push(Op::MInsert { slot: s, k: k.clone(), v: v.clone() });
+                    a.push(Op::MRemove { slot: s, k, v });
+                }
+            }
+            a.push(Op::Close { slot: s });
+            a.push(Op::RenameSlot { slot: s, to: "c".into() });
+            a.push(Op::RenameSlot { slot: s, to: "b".into() });
+            a.push(Op::DeleteSlot { slot: s });
+        }
+    }
+    for kind in [Kind::Table, Kind::Multimap] {
+        a.push(Op::Rename { from: "a".into(), to: "b".into(), kind });
+        a.push(Op::Rename { from: "b".into(), to: "a".into(), kind });
+        a.push(Op::Rename { from: "a".into(), to: "a".into(), kind });
+        a.push(Op::Rename { from: "a".into(), to: "c".into(), kind });
+        a.push(Op::Delete { name: "a".into(), kind });
+        a.push(Op::Delete { name: "b".into(), kind });
+    }
+    a.push(Op::ListTables);
+    a.push(begin(vec![Op::Commit]));
+    a.push(begin(vec![Op::Abort]));
+    a.push(begin(vec![Op::Commit, Op::Reopen]));
+    a
+}
+
+pub fn c17_profiles(quick: bool) -> Vec<(Profile, u64)> {
+    let mut out = vec![];
+    let cfgs = if quick { vec![CFG0] } else { vec![CFG0, CFG_CACHE] };
+    for cfg in cfgs {
+        let s_empty = Seed { name: "empty".into(), cfg, setup: vec![], pre: vec![Op::Begin] };
+        let (k, v) = cat_kv(CAT_SPECS[0], 1);
+        let s_two = Seed {
+            name: "a:table<u64,u64>,b:multimap".into(),
+            cfg,
+            setup: vec![txn(
+                CommitMode::OnePhase,
+                vec![
+                    Op::Open { slot: 0, name: "a".into(), spec: CAT_SPECS[0] },
+                    Op::Insert { slot: 0, k, v },
+                    Op::Open { slot: 1, name: "b".into(), spec: CAT_SPECS[3] },
+                    Op::MInsert { slot: 1, k: Val::U(1), v: Val::U(1) },
+                    Op::MInsert { slot: 1, k: Val::U(1), v: Val::U(2) },
+                ],
+            )],
+            pre: vec![Op::Begin],
+        };
+        let mut big = vec![Op::Open { slot: 0, name: "a".into(), spec: CAT_SPECS[1] }];
+        for i in 1..=60u64 {
+            let (k, v) = cat_kv(CAT_SPECS[1], i);
+            big.push(Op::Insert { slot: 0, k, v });
+        }
+        big.push(Op::Open { slot: 1, name: "b".into(), spec: CAT_SPECS[3] });
+        for i in 0..80u64 {
+            big.push(Op::MInsert { slot: 1, k: Val::U(5), v: Val::U(i) });
+        }
+        let s_big = Seed { name: "a:table<str,u64>x60,b:multimap-subtree".into(), cfg, setup: vec![txn(CommitMode::OnePhase, big)], pre: vec![Op::Begin] };
+        let depth = if quick { 3 } else { 4 };
+        out.push((
+            Profile {
+                name: format!("catalog/p{}c{}/d{}", cfg.page_size, cfg.cache, depth),
+                seeds: vec![s_empty, s_two, s_big],
+                depth,
+                alphabet: Box::new(|it: &Interp, _d, _b| c17_alphabet(it)),
+                finish: FINISH_FULL,
+                accounting: true,
+                extra: Some(Box::new(|it: &mut Interp, _b| drain_and_check(it, 6))),
+            },
+            u64::MAX,
+        ));
+    }
+    out
+}
+
+// ------------------------------------------------------------------------------------------ C18
+
+/// up to `n` keys strictly inside the gap (ascending), or fewer if the gap is too narrow
+fn keys_in_gap(t: T, prev: &Option<Val>, next: &Option<Val>, n: u64) -> Vec<Val> {
+    match t {
+        T::U64 => {
+            let lo = prev.as_ref().map(|v| v.u() + 1).unwrap_or(0);
+            let hi = next.as_ref().map(|v| v.u()).unwrap_or(u64::MAX); // exclusive
+            let (lo, hi) = if prev.is_none() && next.is_some() { (hi.saturating_sub(n), hi) } else { (lo, hi) };
+            (lo..hi).take(n as usize).map(Val::U).collect()
+        }
+        T::Bytes => {
+            let base: Vec<u8> = prev.as_ref().map(|v| v.b().to_vec()).unwrap_or_default();
+            let mut out = vec![];
+            for i in 0..n {
+                let mut k = base.clone();
+                k.push(1);
+                k.extend_from_slice(format!("{i:04}").as_bytes());
+                let kv = Val::B(k);
+                if next.as_ref().map(|nx| &kv < nx).unwrap_or(true) {
+                    out.push(kv);
+                }
+            }
+            out
+        }
+        T::Str => {
+            let base: String = prev.as_ref().map(|v| v.s().to_string()).unwrap_or_default();
+            let mut out = vec![];
+            for i in 0..n {
+                let kv = Val::S(format!("{base}\u{1}{i:04}"));
+                if next.as_ref().map(|nx| &kv < nx).unwrap_or(true) {
+                    out.push(kv);
+                }
+            }
+            out
+        }
+    }
+}
+
+pub fn c18_alphabet(it: &Interp, spec: Spec, n: u64, thorough: bool) -> Vec<Op> {
+    if !it.in_txn() || !it.slot_open(0) {
+        return vec![];
+    }
+    let d = dom(spec.k, n);
+    let v = |seed: u64, len: usize| val_of(spec.v, seed, len);
+    let reopen = |pre: Vec<Op>| Op::Seq([pre, vec![Op::Begin, Op::Open { slot: 0, name: "t".into(), spec }]].concat());
+    if it.poisoned() {
+        return vec![reopen(vec![Op::Commit])];
+    }
+    let mut a = vec![];
+    match it.cursor_neighbors() {
+        None => {
+            for upper in [false, true] {
+                let mk = |b: B| if upper { Op::CurUpper { slot: 0, b } } else { Op::CurLower { slot: 0, b } };
+                a.push(mk(B::Un));
+                a.push(mk(B::In(d.mid.clone())));
+                a.push(mk(B::Ex(d.mid.clone())));
+                a.push(mk(B::In(d.midabs.clone())));
+                a.push(mk(B::Ex(d.low.clone())));
+                a.push(mk(B::In(d.high.clone())));
+                if thorough {
+                    a.push(mk(B::Ex(d.midabs.clone())));
+                    a.push(mk(B::In(d.first.clone())));
+                    a.push(mk(B::Ex(d.last.clone())));
+                }
+            }
+            a.push(Op::RoCursor {
+                slot: 0,
+                upper: false,
+                b: B::In(d.midabs.clone()),
+                steps: vec![CurStep::PeekPrev, CurStep::PeekNext, CurStep::Next, CurStep::Next, CurStep::Prev, CurStep::PeekNext],
+            });
+            a.push(Op::RoCursor {
+                slot: 0,
+                upper: true,
+                b: B::Un,
+                steps: vec![CurStep::PeekNext, CurStep::Next, CurStep::Prev, CurStep::Prev, CurStep::PeekPrev],
+            });
+            a.push(Op::Remove { slot: 0, k: d.mid.clone() });
+            a.push(reopen(vec![Op::Commit]));
+            a.push(reopen(vec![Op::Commit, Op::Reopen]));
+        }
+        Some((prev, next)) => {
+            a.push(Op::CurPeekNext);
+            a.push(Op::CurPeekPrev);
+            a.push(Op::CurNext);
+            a.push(Op::CurPrev);
+            let inside = keys_in_gap(spec.k, &prev, &next, 40);
+            if let Some(k) = inside.first() {
+                a.push(Op::CurInsBefore { k: k.clone(), v: v(21, 40) });
+                a.push(Op::CurInsAfter { k: k.clone(), v: v(22, 40) });
+                a.push(Op::CurInsBefore { k: k.clone(), v: v(23, 700) });
+            }
+            if let Some(p) = &prev {
+                a.push(Op::CurInsBefore { k: p.clone(), v: v(24, 8) });
+                a.push(Op::CurInsAfter { k: p.clone(), v: v(24, 8) });
+            }
+            if let Some(nx) = &next {
+                a.push(Op::CurInsBefore { k: nx.clone(), v: v(25, 8) });
+                a.push(Op::CurInsAfter { k: nx.clone(), v: v(25, 8) });
+            }
+            a.push(Op::CurInsBefore { k: d.low.clone(), v: v(26, 8) });
+            a.push(Op::CurInsAfter { k: d.high.clone(), v: v(27, 8) });
+            a.push(Op::CurRemNext);
+            a.push(Op::CurRemPrev);
+            // buffered runs: ascending through insert_before, descending through insert_after
+            if inside.len() >= 5 {
+                let run: Vec<Op> = inside.iter().take(5).enumerate().map(|(i, k)| Op::CurInsBefore { k: k.clone(), v: v(30 + i as u64, 60) }).collect();
+                a.push(Op::Seq(run));
+                let run: Vec<Op> =
+                    inside.iter().take(5).rev().enumerate().map(|(i, k)| Op::CurInsAfter { k: k.clone(), v: v(40 + i as u64, 60) }).collect();
+                a.push(Op::Seq(run));
+            }
+            if inside.len() >= 40 {
+                let run: Vec<Op> = inside.iter().enumerate().map(|(i, k)| Op::CurInsBefore { k: k.clone(), v: v(50 + i as u64, 45) }).collect();
+                a.push(Op::Seq(run));
+                let run: Vec<Op> = inside.iter().rev().enumerate().map(|(i, k)| Op::CurInsAfter { k: k.clone(), v: v(90 + i as u64, 45) }).collect();
+                a.push(Op::Seq(run));
+            }
+            a.push(Op::CurClose);
+            a.push(Op::CurDrop);
+        }
+    }
+    a
+}
+
+pub fn c18_profiles(quick: bool) -> Vec<(Profile, u64)> {
+    let mut out = vec![];
+    let tables: Vec<(Spec, usize)> = if quick {
+        vec![(tbl(T::U64, T::Bytes), 3), (tbl(T::Bytes, T::Bytes), 3), (tbl(T::U64, T::U64), 3)]
+    } else {
+        vec![(tbl(T::U64, T::Bytes), 5), (tbl(T::Bytes, T::Bytes), 4), (tbl(T::U64, T::U64), 4), (tbl(T::Str, T::Str), 4)]
+    };
+    let cfgs: Vec<(Cfg, usize)> = if quick { vec![(CFG0, 0)] } else { vec![(CFG0, 0), (CFG_CACHE, 1), (CFG_4K, 1)] };
+    for (spec, depth) in tables {
+        for (cfg, red) in &cfgs {
+            let depth = depth - red;
+            let all = c04_seed_specs(spec, quick);
+            let specs: Vec<TSeedSpec> = all
+                .into_iter()
+                .filter(|s| matches!(s.name, "empty" | "leaf-full" | "two-level") || (!quick && matches!(s.name, "three-level" | "sparse")))
+                .collect();
+            let seeds: Vec<Seed> = specs.iter().map(|s| table_seed(*cfg, spec, s)).collect();
+            let ns: std::collections::BTreeMap<String, u64> =
+                specs.iter().map(|s| (format!("{}{}", s.name, if s.dirty { "-dirty" } else { "" }), s.n)).collect();
+            let alphabet = move |it: &Interp, _d: usize, b: &Built| -> Vec<Op> {
+                let n = ns.get(&b.seed.name).copied().unwrap_or(4);
+                c18_alphabet(it, spec, n, !quick)
+            };
+            out.push((
+                Profile {
+                    name: format!("cursor<{:?},{:?}>/p{}c{}/d{}", spec.k, spec.v, cfg.page_size, cfg.cache, depth),
+                    seeds,
+                    depth,
+                    alphabet: Box::new(alphabet),
+                    finish: FINISH_FULL,
+                    accounting: true,
+                    extra: None,
+                },
+                u64::MAX,
+            ));
+        }
+    }
+    out
+}
